@@ -306,14 +306,15 @@ impl Built {
     }
 
     /// Views (node id, root path of the view) whose deep state must never change: one per lower layer.
-    pub fn lower_views(&self) -> Vec<(usize, VfsPath)> {
+    /// (node id, root of that node's filesystem, path prefix of the lower region inside it)
+    pub fn lower_views(&self) -> Vec<(usize, VfsPath, String)> {
         let mut v = vec![];
         for n in &self.nodes {
             match &n.role {
-                Role::Layer { idx, .. } if *idx >= 1 => v.push((n.id, n.root.clone())),
+                Role::Layer { idx, .. } if *idx >= 1 => v.push((n.id, n.root.clone(), String::new())),
                 Role::SharedUnder { bases, .. } => {
                     for b in bases.iter().skip(1) {
-                        v.push((n.id, at(&n.root, b)));
+                        v.push((n.id, n.root.clone(), b.clone()));
                     }
                 }
                 _ => {}
